@@ -12,6 +12,11 @@ use super::world::*;
 use crate::codec::Id;
 use crate::common::{guarded, ValSpec, Violation};
 
+thread_local! {
+    /// set while the harness performs a local write (panicky listeners only panic then)
+    static LOCAL_WRITE: std::cell::Cell<bool> = const { std::cell::Cell::new(false) };
+}
+
 impl World {
     pub fn apply(&mut self, cmd: &Cmd) -> Result<(), Violation> {
         self.step += 1;
@@ -84,12 +89,16 @@ impl World {
                 }
                 Ok(())
             }
-            Cmd::Subscribe { p, prefix } => {
+            Cmd::Subscribe { p, prefix, panicky } => {
                 if let Some(node) = self.nodes.get_mut(*p).and_then(|n| n.as_mut()) {
                     let si = node.subs.len();
                     let calls = node.calls.clone();
+                    let panicky = *panicky;
                     let handle = node.chit.subscribe_event(prefix.clone(), move |ev| {
                         calls.lock().unwrap().push((si, ev.key.to_string(), ev.value.to_string(), Id::from_real(ev.node)));
+                        if panicky && LOCAL_WRITE.with(|c| c.get()) {
+                            panic!("injected listener panic");
+                        }
                     });
                     node.subs.push(Sub { prefix: prefix.clone(), handle: Some(handle), active: true });
                 }
@@ -157,7 +166,8 @@ impl World {
         let before_entry = ns.get_versioned(key).map(|v| (v.value.clone(), v.version, kind_of(&v.status)));
         let res = {
             let _g = self.rt.enter();
-            guarded(|| {
+            LOCAL_WRITE.with(|c| c.set(true));
+            let r = guarded(|| {
                 let ns = node.chit.self_node_state();
                 match op {
                     WriteOp::Set => ns.set(key, &value),
@@ -165,7 +175,18 @@ impl World {
                     WriteOp::Delete => ns.delete(key),
                     WriteOp::DeleteTtl => ns.delete_after_ttl(key),
                 }
-            })
+            });
+            LOCAL_WRITE.with(|c| c.set(false));
+            r
+        };
+        // a panic of the application's own callback is a fault of user code: the write itself has
+        // to be complete and the node consistent (the checks below run as for any other write)
+        let res = match res {
+            Err(pmsg) if pmsg.contains("injected listener panic") => {
+                self.stats.inc("fault_listener_panic");
+                Ok(())
+            }
+            other => other,
         };
         if let Err(pmsg) = res {
             let (prop, code) = if pmsg.contains("listener.rs") { ("C15", "C15.panic") } else { ("C04", "C04.panic_write") };
